@@ -130,3 +130,9 @@ pub fn generate(prop: &str, seed: u64, tier: &str, out: &mut dyn std::io::Write)
         writeln!(out, "{}", one_case(prop, &format!("d{}-{}", seed, i), &mut r, max_ops, snaps)).unwrap();
     }
 }
+
+pub fn one(prop: &str, id: &str, seed: u64, index: u64) -> Option<String> {
+    let snaps = prop == "C10";
+    let max_ops = 24;
+    Some(one_case(prop, id, &mut Rng::for_case(seed, if snaps { 10 } else { 9 }, index), max_ops, snaps))
+}
